@@ -16,7 +16,7 @@ import (
 // input makes whatever must follow fail: the legacy spelling `1..2>` inside a
 // join, order or complement stops parsing at the `>`.
 func PeekAdvance(p *core.Prog, r *core.Report) {
-	r.Rule("PEEK-ADVANCE", "in the parsers of package gts a byte obtained with pars.Next and found equal to a literal is consumed with state.Advance() before the next look-ahead, the next parser call on the state, state.Drop() or a return: pars.Next only peeks", 8)
+	r.Rule("PEEK-ADVANCE", "in the parsers of package gts a byte obtained with pars.Next and found equal to a literal is consumed with state.Advance() before the next look-ahead, the next parser call on the state, state.Drop() or a return: pars.Next only peeks", 5)
 	info := p.Info(gts)
 	const parsPkg = "github.com/go-pars/pars"
 	for _, fd := range p.FuncDecls(gts) {
